@@ -137,7 +137,8 @@ structure KInv {κ : Type} (key : Value → κ) (rows : List RowE) (c : ColRef) 
 
 def IdxInv (t : Table) : Prop :=
   RowsWF t.rows ∧ (∀ c ix, (c, ix) ∈ t.hidx → KInv hashKey t.rows c ix) ∧
-    (∀ c ix, (c, ix) ∈ t.oidx → KInv ordKey t.rows c ix)
+    (∀ c ix, (c, ix) ∈ t.oidx → KInv ordKey t.rows c ix) ∧
+    (∀ r ∈ t.rows, r.vals.length = t.schema.length)
 
 theorem id_inj (rows : List RowE) (h : (rows.map (·.id)).Pairwise (· < ·)) :
     ∀ r ∈ rows, ∀ r' ∈ rows, r.id = r'.id → r = r' := by
@@ -275,7 +276,7 @@ theorem lookup_sound (t : Table) (hi : IdxInv t) (c : Cond) :
     intro ids h
     simp only [tryIndexLookup, Option.map_eq_some_iff] at h
     obtain ⟨ix, hix, rfl⟩ := h
-    have k := hi.2.2 col ix (assocGet_mem col _ ix hix)
+    have k := hi.2.2.1 col ix (assocGet_mem col _ ix hix)
     refine ⟨?_, ?_⟩
     · unfold rangeLookup
       exact k.nodup.sublist ((List.filter_sublist).map _)
@@ -319,4 +320,286 @@ theorem select_eq_spec (t : Table) (hi : IdxInv t) (c : Cond) : select t c = spe
   | some ids =>
     obtain ⟨hn, hs⟩ := lookup_sound t hi c ids h
     exact selectViaIds_eq_spec t c ids hi.1 hn hs
+
+/-! ## limit / count / cursor -/
+
+
+theorem scanFilter_map_id (t : Table) (c : Cond) :
+    ((scanAll t).filter (fun r => evaluate c r.id r.vals)).map (·.id) = spec t c := by
+  unfold scanAll spec
+  rw [List.filter_filter]
+  congr 1
+  apply List.filter_congr
+  intro r _
+  simp [matchesRow, Bool.and_comm]
+
+theorem take_drop_window (l : List Nat) (o n : Nat) : ((l.take (o + n)).drop o).take n = (l.drop o).take n := by
+  rw [List.drop_take]
+  have : o + n - o = n := by omega
+  rw [this, List.take_take]
+  simp
+
+theorem selectLimit_eq (t : Table) (hi : IdxInv t) (c : Cond) (limit offset : Nat) :
+    selectLimit t c limit offset = ((spec t c).drop offset).take limit := by
+  unfold selectLimit
+  split
+  · rename_i h; subst h; simp
+  · cases h : tryIndexLookup t c with
+    | some ids =>
+      obtain ⟨hn, hs⟩ := lookup_sound t hi c ids h
+      simp only [selectViaIds_eq_spec t c ids hi.1 hn hs]
+    | none =>
+      simp only
+      rw [List.map_take, scanFilter_map_id]
+      have hs : StrictAsc ((spec t c).take (offset + limit)) :=
+        (spec_strictAsc t c hi.1).sublist (List.take_sublist _ _)
+      rw [sortIds_of_strictAsc _ hs]
+      exact take_drop_window _ _ _
+
+theorem count_eq (t : Table) (hi : IdxInv t) (c : Cond) : count t c = (spec t c).length := by
+  have hscan : ((scanAll t).filter (fun r => evaluate c r.id r.vals)).length = (spec t c).length := by
+    rw [← scanFilter_map_id, List.length_map]
+  have hidx : ∀ ids, tryIndexLookup t c = some ids →
+      ((fetch t ids).filter (fun r => evaluate c r.id r.vals)).length = (spec t c).length := by
+    intro ids h
+    obtain ⟨hn, hs⟩ := lookup_sound t hi c ids h
+    have := selectViaIds_eq_spec t c ids hi.1 hn hs
+    unfold selectViaIds at this
+    rw [← this, length_sortIds, List.length_map]
+  unfold count
+  cases c with
+  | tt =>
+    simp only
+    rw [← scanFilter_map_id, List.length_map]
+    congr 1
+    simp only [evaluate]
+    exact (List.filter_eq_self.2 (fun _ _ => rfl)).symm
+  | eq col v => cases h : tryIndexLookup t (.eq col v) with
+    | some ids => exact hidx ids h
+    | none => exact hscan
+  | ne col v => cases h : tryIndexLookup t (.ne col v) with
+    | some ids => exact hidx ids h
+    | none => exact hscan
+  | rng op col v => cases h : tryIndexLookup t (.rng op col v) with
+    | some ids => exact hidx ids h
+    | none => exact hscan
+  | and a b => cases h : tryIndexLookup t (.and a b) with
+    | some ids => exact hidx ids h
+    | none => exact hscan
+  | or a b => cases h : tryIndexLookup t (.or a b) with
+    | some ids => exact hidx ids h
+    | none => exact hscan
+
+/-- pages of `(l.drop off).take batch` concatenate to `l.drop off` -/
+theorem pagesFrom_window (l : List Nat) (batch : Nat) (hb : 0 < batch) :
+    ∀ fuel off, l.length - off < fuel →
+      pagesFrom (fun n o => (l.drop o).take n) batch fuel off = l.drop off := by
+  intro fuel
+  induction fuel with
+  | zero => intro off h; omega
+  | succ f ih =>
+    intro off h
+    unfold pagesFrom
+    simp only
+    by_cases hoff : l.length ≤ off
+    · have : l.drop off = [] := List.drop_eq_nil_of_le hoff
+      simp [this]
+    · have hlen : ((l.drop off).take batch).length = min batch (l.length - off) := by
+        simp [List.length_take, List.length_drop]
+      have hne : ((l.drop off).take batch).isEmpty = false := by
+        rw [List.isEmpty_eq_false_iff, ← List.length_pos_iff, hlen]; omega
+      rw [hne]
+      simp only [Bool.false_eq_true, if_false]
+      split
+      · rename_i hlt
+        rw [hlen] at hlt
+        apply List.take_of_length_le
+        rw [List.length_drop]; omega
+      · rename_i hge
+        rw [hlen] at hge ⊢
+        have hmin : min batch (l.length - off) = batch := by omega
+        rw [hmin, ih (off + batch) (by omega)]
+        rw [← List.drop_drop]
+        exact List.take_append_drop batch (l.drop off)
+
+theorem cursorSelect_eq (t : Table) (hi : IdxInv t) (c : Cond) (batch : Nat) (hb : 0 < batch) :
+    cursorSelect t c batch = spec t c := by
+  unfold cursorSelect
+  have hf : (fun l o => selectLimit t c l o) = (fun n o => ((spec t c).drop o).take n) := by
+    funext l o; exact selectLimit_eq t hi c l o
+  rw [hf, pagesFrom_window (spec t c) batch hb]
+  · simp
+  · have : (spec t c).length ≤ t.rows.length := by
+      unfold spec; rw [List.length_map]; exact List.length_filter_le _ _
+    omega
+
+/-! ## vectorised filtering -/
+
+
+theorem icmp_eq_iff (a b : Int) : icmp a b = .eq ↔ a = b := by
+  unfold icmp; split
+  · simp; omega
+  · split <;> simp_all
+
+theorem intLeaf_eq (k : Int) (r : RowE) (i : Nat) :
+    intLeaf none false k (slotVal r i) = evaluate (.eq (.col i) (.int k)) r.id r.vals := by
+  simp only [evaluate, getWithId, slotVal]
+  cases h : r.vals[i]? with
+  | none => simp [intLeaf]
+  | some x => cases x <;> simp [intLeaf, Value.eq]
+
+theorem intLeaf_ne (k : Int) (r : RowE) (i : Nat) :
+    intLeaf none true k (slotVal r i) = evaluate (.ne (.col i) (.int k)) r.id r.vals := by
+  simp only [evaluate, getWithId, slotVal]
+  cases h : r.vals[i]? with
+  | none => simp [intLeaf]
+  | some x => cases x <;> simp [intLeaf, Value.eq]
+
+theorem intLeaf_rng (op : RangeOp) (k : Int) (r : RowE) (i : Nat) :
+    intLeaf (some op) false k (slotVal r i) = evaluate (.rng op (.col i) (.int k)) r.id r.vals := by
+  simp only [evaluate, getWithId, slotVal]
+  cases h : r.vals[i]? with
+  | none => simp [intLeaf]
+  | some x => cases x <;> simp [intLeaf, partialCmp]
+
+theorem floatLeaf_eq (k : Nat) (r : RowE) (i : Nat) :
+    floatLeaf none k (slotVal r i) = evaluate (.eq (.col i) (.float k)) r.id r.vals := by
+  simp only [evaluate, getWithId, slotVal]
+  cases h : r.vals[i]? with
+  | none => simp [floatLeaf]
+  | some x => cases x <;> simp [floatLeaf, Value.eq]
+
+theorem floatLeaf_rng (op : RangeOp) (k : Nat) (r : RowE) (i : Nat) :
+    floatLeaf (some op) k (slotVal r i) = evaluate (.rng op (.col i) (.float k)) r.id r.vals := by
+  simp only [evaluate, getWithId, slotVal]
+  cases h : r.vals[i]? with
+  | none => simp [floatLeaf]
+  | some x => cases x <;> simp [floatLeaf, partialCmp]
+
+theorem zipWith_map_and (rows : List RowE) (p q : RowE → Bool) :
+    List.zipWith (· && ·) (rows.map p) (rows.map q) = rows.map (fun r => p r && q r) := by
+  induction rows with
+  | nil => rfl
+  | cons r rs ih => simp [ih]
+
+theorem zipWith_map_or (rows : List RowE) (p q : RowE → Bool) :
+    List.zipWith (· || ·) (rows.map p) (rows.map q) = rows.map (fun r => p r || q r) := by
+  induction rows with
+  | nil => rfl
+  | cons r rs ih => simp [ih]
+
+theorem ite_some_eq {α : Type} (p : Prop) [Decidable p] (x y : α)
+    (h : (if p then some x else none) = some y) : x = y := by
+  split at h <;> simp_all
+
+theorem vecFilter_eq (t : Table) (c : Cond) :
+    ∀ bits, vecFilter t c = some bits → bits = t.rows.map (matchesRow c) := by
+  induction c with
+  | tt => intro bits h; simp only [vecFilter, Option.some.injEq] at h; subst h; simp [matchesRow, evaluate]
+  | eq col v =>
+    intro bits h
+    cases col with
+    | id => simp [vecFilter] at h
+    | col i =>
+      cases v with
+      | int k =>
+        have := ite_some_eq _ _ _ h; subst this
+        apply List.map_congr_left; intro r _
+        simp only [matchesRow, intLeaf_eq]
+      | float k =>
+        have := ite_some_eq _ _ _ h; subst this
+        apply List.map_congr_left; intro r _
+        simp only [matchesRow, floatLeaf_eq]
+      | null => simp [vecFilter] at h
+      | str s => simp [vecFilter] at h
+      | bool b => simp [vecFilter] at h
+      | bytes b => simp [vecFilter] at h
+  | ne col v =>
+    intro bits h
+    cases col with
+    | id => simp [vecFilter] at h
+    | col i =>
+      cases v with
+      | int k =>
+        have := ite_some_eq _ _ _ h; subst this
+        apply List.map_congr_left; intro r _
+        simp only [matchesRow, intLeaf_ne]
+      | float k => simp [vecFilter] at h
+      | null => simp [vecFilter] at h
+      | str s => simp [vecFilter] at h
+      | bool b => simp [vecFilter] at h
+      | bytes b => simp [vecFilter] at h
+  | rng op col v =>
+    intro bits h
+    cases col with
+    | id => simp [vecFilter] at h
+    | col i =>
+      cases v with
+      | int k =>
+        have := ite_some_eq _ _ _ h; subst this
+        apply List.map_congr_left; intro r _
+        simp only [matchesRow, intLeaf_rng]
+      | float k =>
+        cases op with
+        | lt =>
+          have := ite_some_eq _ _ _ h; subst this
+          apply List.map_congr_left; intro r _
+          simp only [matchesRow, floatLeaf_rng]
+        | gt =>
+          have := ite_some_eq _ _ _ h; subst this
+          apply List.map_congr_left; intro r _
+          simp only [matchesRow, floatLeaf_rng]
+        | le => simp [vecFilter] at h
+        | ge => simp [vecFilter] at h
+      | null => cases op <;> simp [vecFilter] at h
+      | str s => cases op <;> simp [vecFilter] at h
+      | bool b => cases op <;> simp [vecFilter] at h
+      | bytes b => cases op <;> simp [vecFilter] at h
+  | and a b iha ihb =>
+    intro bits h
+    simp only [vecFilter] at h
+    cases ha : vecFilter t a with
+    | none => simp [ha] at h
+    | some x => cases hb : vecFilter t b with
+      | none => simp [ha, hb] at h
+      | some y =>
+        simp only [ha, hb, Option.some.injEq] at h
+        subst h
+        rw [iha x ha, ihb y hb, zipWith_map_and]
+        apply List.map_congr_left; intro r _
+        simp only [matchesRow, evaluate]
+        cases r.alive <;> simp
+  | or a b iha ihb =>
+    intro bits h
+    simp only [vecFilter] at h
+    cases ha : vecFilter t a with
+    | none => simp [ha] at h
+    | some x => cases hb : vecFilter t b with
+      | none => simp [ha, hb] at h
+      | some y =>
+        simp only [ha, hb, Option.some.injEq] at h
+        subst h
+        rw [iha x ha, ihb y hb, zipWith_map_or]
+        apply List.map_congr_left; intro r _
+        simp only [matchesRow, evaluate]
+        cases r.alive <;> simp
+
+theorem selectedIds_map (rows : List RowE) (p : RowE → Bool) :
+    selectedIds rows (rows.map p) = (rows.filter p).map (·.id) := by
+  induction rows with
+  | nil => rfl
+  | cons r rs ih =>
+    simp only [List.map_cons, selectedIds, List.filter_cons]
+    split <;> simp [ih]
+
+theorem columnarSelect_eq (t : Table) (hi : IdxInv t) (c : Cond) : columnarSelect t c = spec t c := by
+  unfold columnarSelect
+  split
+  · cases h : vecFilter t c with
+    | none => exact select_eq_spec t hi c
+    | some bits =>
+      simp only
+      rw [vecFilter_eq t c bits h, selectedIds_map]
+      rfl
+  · exact select_eq_spec t hi c
 end Neumann.Rel
